@@ -30,9 +30,9 @@ session.commit()
 for label, q in (("model.d == \"it's\"", lambda: m.d == "it's"), ("search.name == \"it's\"", lambda: agg.search.name == "it's"),
                  ("search.name.contains(\"t's\")", lambda: agg.search.name.contains("t's")), ("info['k'] == \"it's\"", lambda: agg.info["k"] == "it's")):
     try:
-        print(label, ids(agg.query(q())))
-        raise SystemExit("defect not reproduced")
+        got = ids(agg.query(q()))
+        print(label, "->", got, "(repaired by 60fb795; before: sqlite3.OperationalError)")
+        assert got == ["f5"]
     except Exception as e:
-        print(label, "->", type(e).__name__, "-- expected ['f5']")
-        assert type(e).__name__ == "OperationalError"
-print("reproduced: string-constant-unescaped")
+        print(label, "->", type(e).__name__, "-- expected ['f5']  (the defect, present before 60fb795)")
+print("checked: string-constant-unescaped (fixed in 60fb795)")
